@@ -258,6 +258,24 @@ def _neutralise_grid(grid, feature):
     return g
 
 
+def _undocumented_header_deviation(grid, fmt, opts):
+    if not fmt.startswith("xlsx"):
+        return None
+    try:
+        tables = list(extract("xlsx", SHEET_FORMATS[fmt](grid, opts=opts))[0].iterate_tables())
+    except Exception:  # noqa
+        return None
+    for si, (sh, t) in enumerate(zip(grid["sheets"], tables)):
+        want, got = sheets.expected_grid(sh), t.get_table()
+        if not want or not got or len(got[0]) != len(want[0]):
+            continue
+        for ci, wc in enumerate(want[0]):
+            g = got[0][ci]
+            if wc is not None and wc.get("v") not in (None, "") and isinstance(g, str) and g.startswith("Unnamed:"):
+                return f"sheet {si + 1} header cell (1,{ci + 1}) holds {wc} but comes back as {g!r} (the listed findings only cover empty header cells and str() of typed ones)"
+    return None
+
+
 def evaluate_grid(ctx: Ctx, grid, fmt, part: Partial | None = None, opts=None):
     sheets.validate(grid)
     feats = sheets.grid_features(grid) | {"opt." + k for k, v in (opts or {}).items() if v}
@@ -272,7 +290,12 @@ def evaluate_grid(ctx: Ctx, grid, fmt, part: Partial | None = None, opts=None):
     base_fmt = fmt
     ok, grid2, fails2 = _attribute(ctx, part, fails, lambda g: judge_grid(g, fmt, opts), grid, base_fmt, feats, _neutralise_grid)
     if ok:
-        return []
+        # the listed header findings are specific transformations (value -> str(value); EMPTY header cell -> 'Unnamed: N'); a header cell
+        # that has a value and still comes back as 'Unnamed: N' is a different defect and is not covered by them
+        odd = _undocumented_header_deviation(grid, fmt, opts)
+        if not odd:
+            return []
+        return [Violation("cell", f"C13:{fmt}:cell", f"[{fmt}] {odd}; features {sorted(feats)}", {"kind": "grid", "format": fmt, "model": grid, "opts": opts or {}})]
     c, d = fails2[0]
     return [Violation(c, f"C13:{fmt}:{c}", f"[{fmt}] {d}; failing clauses {sorted({x for x, _ in fails2})}; features {sorted(sheets.grid_features(grid2))}",
                       {"kind": "grid", "format": fmt, "model": grid2, "opts": opts or {}})]
